@@ -167,4 +167,27 @@ def run(prog):
                     break
     out.append(inst("BT", "%s:BT5:lca" % fn.npath, VIOLATION if errs else OK, fn, None,
                     "; ".join(errs) if errs else "l == r ↦ l; else query(min(first(l), first(r)), max(..))"))
+    # BT6: LeastCommonAncestor::new — first occurrences in the Euler tour of the breadth-first labelling, minimum tree
+    fn = find("new", "LeastCommonAncestor")
+    te = fn.terms
+    errs = []
+    ev = [c for c in te.calls if c.callee.name == "build_euler_vec"]
+    if len(ev) != 1 or not mir.is_call(strip(ev[0].args[1]), "bfs_labeling"):
+        errs.append("the Euler tour is not built over the breadth-first labelling")
+    st = [x for x in te.stores if "Some{" in show(x[2])]
+    if len(st) != 1:
+        errs.append("expected one store into the first-occurrence table, found %d" % len(st))
+    else:
+        tgt, val = strip(st[0][1]), strip(st[0][2])
+        if not (show(tgt).endswith(".0.1)") and show(val).endswith(".0.0}")):
+            errs.append("the table stores %s at %s, expected position i at [node of position i]" % (show(val)[:40], show(tgt)[:50]))
+        guard = [(show(strip(c)), v) for c, v, _, _ in te.facts_at(st[0][0])]
+        if not any(sc.startswith("is_none(index(") and v != "0" for sc, v in guard):
+            errs.append("the position is written even when the node already has one: the table holds *last* occurrences, and the "
+                        "range between two last occurrences need not contain the common ancestor")
+    b = [c for c in te.calls if c.callee.name == "build"]
+    if len(b) != 1 or "Min" not in show(b[0].args[1]):
+        errs.append("the range structure is not a minimum tree over the tour")
+    out.append(inst("BT", "%s:BT6:first-occurrence" % fn.npath, VIOLATION if errs else OK, fn, None,
+                    "; ".join(errs) if errs else "index_map[v] = first position of v in the Euler tour (BFS labels); range-minimum tree over the tour"))
     return out
